@@ -101,7 +101,7 @@ impl Prop for C13 {
         fn me_large(n: usize) -> usize {
             n * 3
         }
-        let small = graph_strategy(&ALL_KINDS, 2, 14, me, &[0, 0, 1, 3, 5, 6], 5);
+        let small = graph_strategy(&ALL_KINDS, 2, 14, me, &[0, 0, 1, 3, 5, 6, 8, 8], 5);
         let large = graph_strategy(&ALL_KINDS, 30, 40, me_large, &[0, 1], 3);
         fn me_huge(n: usize) -> usize {
             n + n / 2
@@ -109,7 +109,7 @@ impl Prop for C13 {
         // sparse graphs large enough for three or more Louvain levels
         let huge = graph_strategy(&ALL_KINDS, 41, 90, me_huge, &[0, 1], 7);
         let boundary = boundary_graph_strategy(&ALL_KINDS, me_huge, &[0, 1], 6, 255);
-        (prop_oneof![500 => small, 20 => large, 10 => huge, 1 => boundary], any::<u64>(), prop_oneof![2 => Just(255u8), 2 => any::<u8>()], 0u8..5, any::<bool>())
+        (prop_oneof![500 => small, 20 => large, 10 => huge, 1 => boundary], crate::props::c16::seed_strategy(), prop_oneof![2 => Just(255u8), 2 => any::<u8>()], 0u8..5, any::<bool>())
             .prop_map(|(g, seed, res, thr, weighted)| LouvainCase { g, seed, res, thr, weighted })
             .boxed()
     }
